@@ -100,7 +100,14 @@ impl Prop for C16Prop {
         } else {
             rng.range(0, 40)
         };
-        let m = gen::gen_payload_len(rng, len);
+        let mut m = gen::gen_payload_len(rng, len);
+        if !default8k && rng.chance(1, 30) {
+            // a payload that ends in more zeros than a byte can count (all of them are withheld
+            // until the end sequence proves which are padding)
+            m = gen::gen_payload_upto(rng, 8);
+            let z = if rng.chance(1, 2) { rng.range(250, 260) } else { rng.range(505, 515) };
+            m.extend(std::iter::repeat(0u8).take(z));
+        }
         let m2 = gen::gen_payload_upto(rng, 12);
         let mut l = LinkScn::new("C16", if default8k { "default-8k" } else { "ladder" }, fe, if default8k { BufKind::Default } else { BufKind::Vec });
         l.segs.push(Seg::Frame { payload: Hx(m), enc: gen::gen_enc(rng), faults: vec![] });
